@@ -151,6 +151,8 @@ def c06_error(f0: bool, f1: bool, f2: bool, base: bool, out_sel: int, sf: int) -
         err = e
     except (UserError, UserBase):
         return False  # a raw user exception must never escape run()
+    except Exception:
+        return False  # nor anything else (e.g. an error raised while the failure was being reported)
     if HAND:
         # the hand-built call: when it is the one that failed, CallError.call is that very node and the cause the very object
         hs = [x for x in started if x == "hand"]
